@@ -44,3 +44,12 @@ def register_all(chk):
         "utils::ziggurat / the tail closures on the real code for every RNG word (one iteration: bounded units, never counted as proved): value "
         "inside the selected layer, sign of u, tail beyond R. The sampled LAW (Kolmogorov distance, per-layer mass) is not decidable by contracts and is not claimed.",
         verus=False, kani=True)
+    chk.contract_property(
+        "C07", "Location and scale parameters act as exact affine maps on a fixed random stream",
+        "Relational (two-run) contracts on the real sampler code, proved by loop-free Kani harnesses over all parameters in the envelope and all RNG "
+        "words for the f32 instantiation (Kissat): Normal::from_zscore == mean + std_dev*z (negative std_dev included), LogNormal::from_zscore == "
+        "exp(mu + sigma*z), and sample(loc, scale) == loc + scale * sample(0, 1) on the same word with the same number of words consumed for "
+        "Gumbel, Cauchy, (Frechet for fixed shapes: bounded). The source is generic over the float type, so these are obligations on the text "
+        "that f64 runs, but f64 itself is NOT proved (multiplier miters do not close: DESIGN.md 2.8). Exp/Weibull/Pareto/Gamma/InverseGaussian/"
+        "Triangular/Pert/SkewNormal are not reached.",
+        verus=False, kani=True)
